@@ -58,6 +58,11 @@ def qruntime_part(ctx, binary, quick):
     n = 60 if quick else 1500
     behs = vlib.gen_behaviours(ctx, "GenBackoff", "GenBackoff.cfg", num=n, depth=60, name="gen-backoff",
                                env={"GEN_DEPTH": 8 if quick else 14})[:n]
+    # long streaks of consecutive failures (well beyond the point where the interval reaches its cap)
+    ns = 6 if quick else 60
+    behs += vlib.gen_behaviours(ctx, "GenBackoff", "GenBackoff.cfg", num=ns, depth=400, name="gen-backoff-streak", workers=2,
+                                env={"GEN_DEPTH": 45 if quick else 80, "GEN_ERRONLY": 1})[:ns]
+    ctx.cov["long_failure_streaks"] = ns
     ctx.cov["behaviours_replayed"] += len(behs)
     ctx.sample({"outcome_sequence": behs[0]["outcomes"]})
     inp = os.path.join(ctx.scratch, "bbehs.json")
